@@ -6,7 +6,7 @@ P="$d/patch.diff"; [ -f "$d/patch.rebased.diff" ] && P="$d/patch.rebased.diff"
 if ! git apply --check "$P" 2>/dev/null; then echo "PATCH-DOES-NOT-APPLY $d"; exit 3; fi
 git apply "$P"
 for p in "$@"; do
-  out=$(cd /verif && timeout 1500 bin/vx check $p --tier ${TIER:-quick} 2>&1); rc=$?
+  out=$(cd /verif && VERIF_EVIDENCE_DIR=/verif/evidence/dev timeout 1800 bin/vx check $p --tier ${TIER:-quick} 2>&1); rc=$?
   echo "== $(basename $d) $p rc=$rc"
   echo "$out" | grep -E "VIOLATION|INCONCLUSIVE|violated:|KNOWN|PASS" | cut -c1-260 | head -8
 done
